@@ -154,6 +154,23 @@ func c15Check(w *run.W, name, head string, blocks []c15Block, fullUpTo int, cidx
 	text := ob.String()
 	orig := impl.BuildMem("root.jst", text)
 	if !orig.OK() {
+		// the document as written is rejected: if some order of its blocks is accepted, that order is an accepted document
+		// and every other order (this one included) must be accepted too — judge from there
+		if orig.Err != nil && len(blocks) >= 2 && len(blocks) <= 5 && !strings.HasSuffix(name, "/rebased") {
+			for _, perm := range permutations(len(blocks), 5) {
+				var pb strings.Builder
+				pb.WriteString(head)
+				nb := make([]c15Block, 0, len(blocks))
+				for _, i := range perm {
+					pb.WriteString(blocks[i].text)
+					nb = append(nb, blocks[i])
+				}
+				if b := impl.BuildMem("root.jst", pb.String()); b.OK() {
+					c15Check(w, name+"/rebased", head, nb, fullUpTo, cidx)
+					return
+				}
+			}
+		}
 		return
 	}
 	j := impl.ToJson(&orig.J)
@@ -195,6 +212,7 @@ func c15Check(w *run.W, name, head string, blocks []c15Block, fullUpTo int, cidx
 	if w.Shard == 0 {
 		w.Count("documents", 1)
 	}
+	regexUsers := c15RegexUsers(od)
 	declared := map[string]bool{}
 	for _, b := range blocks {
 		for _, t := range b.tags {
@@ -241,7 +259,14 @@ func c15Check(w *run.W, name, head string, blocks []c15Block, fullUpTo int, cidx
 				}
 				for _, k := range want {
 					if d := oj.Diff(section(od, sec).Vals[k], section(pd, sec).Vals[k], "/"+sec+"/"+k); d != "" {
-						w.Violation("C15", "entry-changed:"+sec, fmt.Sprintf("%s, blocks in order %v: entry changed: %s\n%s", name, perm, d, trunc(pt, 1500)), detail)
+						key := "entry-changed:" + sec
+						if regexUsers >= 2 && oj.Diff(maskExamples(section(od, sec).Vals[k]), maskExamples(section(pd, sec).Vals[k]), "") == "" {
+							// only "example" strings differ, in a document whose regex user type is embedded by two or more
+							// schemas: the stateful example generator of the dependency (one per regex type) hands its next
+							// string to whichever schema asks first
+							key = "entry-changed:example-of-shared-regex-type"
+						}
+						w.Violation("C15", key, fmt.Sprintf("%s, blocks in order %v: entry changed: %s\n%s", name, perm, d, trunc(pt, 1500)), detail)
 						return
 					}
 				}
@@ -321,6 +346,70 @@ func c15Check(w *run.W, name, head string, blocks []c15Block, fullUpTo int, cidx
 	}
 }
 
+// c15RegexUsers: the largest number of schemas (user types and interaction schemas) that use one regex user type.
+func c15RegexUsers(doc any) int {
+	regexTypes := map[string]bool{}
+	if ut, _ := oj.Get(doc, "userTypes").(*oj.O); ut != nil {
+		for _, k := range ut.Keys {
+			if n, _ := oj.Get(ut.Vals[k], "schema", "notation").(string); n == "regex" {
+				regexTypes[k] = true
+			}
+		}
+	}
+	users := map[string]int{}
+	var walk func(x any)
+	walk = func(x any) {
+		switch v := x.(type) {
+		case *oj.O:
+			if arr, ok := v.Vals["usedUserTypes"].([]any); ok {
+				for _, t := range arr {
+					if s, _ := t.(string); regexTypes[s] {
+						users[s]++
+					}
+				}
+			}
+			for _, k := range v.Keys {
+				walk(v.Vals[k])
+			}
+		case []any:
+			for _, e := range v {
+				walk(e)
+			}
+		}
+	}
+	walk(doc)
+	m := 0
+	for _, n := range users {
+		if n > m {
+			m = n
+		}
+	}
+	return m
+}
+
+// maskExamples returns a copy of x in which every "example" string is blanked.
+func maskExamples(x any) any {
+	switch v := x.(type) {
+	case *oj.O:
+		o := oj.NewO(v.Ordered)
+		for _, k := range v.Keys {
+			if k == "example" {
+				o.Set(k, "")
+			} else {
+				o.Set(k, maskExamples(v.Vals[k]))
+			}
+		}
+		return o
+	case []any:
+		out := make([]any, len(v))
+		for i, e := range v {
+			out[i] = maskExamples(e)
+		}
+		return out
+	}
+	return x
+}
+
 func workC15(w *run.W) {
 	var p c15Params
 	json.Unmarshal(w.Params, &p)
@@ -384,6 +473,11 @@ var c15Shapes = []string{
 	"JSIGHT 0.3\nENUM @e1\n  [1, 2]\nTYPE @leaf\n  {\n    \"v\": 1 // {enum: @e1}\n  }\nTYPE @mid\n  {\"l\": @leaf}\nTYPE @top\n  {\"m\": @mid, \"arr\": [@leaf]}\n",
 	// a TAG with a Description, used by interactions written before and after it
 	"JSIGHT 0.3\nGET /cats\n  Tags @pets\n  200 any\nTAG @pets // Pets\n  Description\n    all about pets\nURL /rpc\n  Protocol json-rpc-2.0\n  Method listPets\n    Tags @pets\n    Params\n      {}\nGET /dogs\n  Tags @pets\n  200 any\n",
+	// a Tags directive that names the tag made up from the path of an untagged interaction (must not depend on the order)
+	"JSIGHT 0.3\nGET /x\n  Tags @cats\n  200 any\nGET /cats\n  200 any\nGET /dogs\n  200 any\n",
+	"JSIGHT 0.3\nGET /x\n  Tags @cats\n  200 any\nTAG @cats // Mine\nGET /cats\n  200 any\nGET /cats/{id}\n  200 any\n",
+	// one regex type embedded by two types and a response
+	"JSIGHT 0.3\nTYPE @r regex\n  /[a-z]{8}/\nTYPE @a\n  {\"x\": @r}\nTYPE @b\n  {\"y\": @r}\nGET /r\n  200 @r\n",
 	// or-shortcut and regex types, json-rpc
 	"JSIGHT 0.3\nTYPE @u\n  @v | @w\nTYPE @v regex\n  /a+/\nTYPE @w\n  \"s\"\nURL /rpc\n  Protocol json-rpc-2.0\n  Method m\n    Params\n      {\"u\": @u}\nGET /rpc2\n  200 @u\n",
 }
